@@ -144,7 +144,7 @@ class Obj:
 def mkobj(x): LOG.append(("mkobj", x)); return Obj(x)
 
 
-KINDS_FULL = ["f1", "f2", "tuple", "list", "dict", "getitem0", "assert", "cast", "len", "cell", "push", "rd", "nested", "nested2", "split", "getattr", "setitem", "import", "eq"]
+KINDS_FULL = ["f1", "f2", "tuple", "list", "dict", "getitem0", "assert", "cast", "len", "cell", "push", "rd", "nested", "nested2", "split", "getattr", "setitem", "import", "eq", "lit_int", "lit_float", "lit_bool", "lit_str"]
 KINDS_REDUCED = ["f1", "f2", "tuple", "getitem0", "cell", "push", "rd", "nested", "cast"]
 
 
@@ -195,6 +195,11 @@ def build(prog, nin=2, out_mode=0):
         elif kind == "setitem": r = (P.setitem(a, 0, b), "cell") if ta == "cell" and tb == "val" else None
         elif kind == "import": r = (P.call(P.getattr(P.import_("operator"), "add"), [P.call(P.builtins.len, [[a]]), 41]), "val") if ta == "val" else None
         elif kind == "eq": r = (P.equal(a, b), "val") if ta == "val" and tb == "val" else None
+        # literals that are == but of different type must stay distinguishable in the text (1 / 1.0 / True / "1")
+        elif kind == "lit_int": r = (C["f2"](a, 1), "val") if plain(ta) else None
+        elif kind == "lit_float": r = (C["f2"](a, 1.0), "val") if plain(ta) else None
+        elif kind == "lit_bool": r = (C["f2"](a, True), "val") if plain(ta) else None
+        elif kind == "lit_str": r = (C["f2"](a, "1"), "val") if plain(ta) else None
         if r is None: return None
         vals.append(r)
     if out_mode == 0: out = vals[-1][0]
